@@ -327,6 +327,19 @@ var vtransforms = []vtransform{
 	}},
 	{"crlf", "C05", true, func(r *vrand, in []byte) []byte { return bytes.ReplaceAll(in, []byte("\n"), []byte("\r\n")) }},
 	{"tabs-for-spaces", "C05", true, func(r *vrand, in []byte) []byte { return bytes.ReplaceAll(in, []byte(" "), []byte("\t")) }},
+	{"unicode-spaces", "C05", true, func(r *vrand, in []byte) []byte {
+		// other kinds of horizontal white space: no-break, em, thin and ideographic spaces
+		sp := []string{"\u00a0", "\u2003", "\u2009", "\u3000", " \u00a0", "\t\u2003"}
+		var sb strings.Builder
+		for _, b := range in {
+			if b == ' ' && r.chance(1, 3) {
+				sb.WriteString(sp[r.intn(len(sp))])
+			} else {
+				sb.WriteByte(b)
+			}
+		}
+		return []byte(sb.String())
+	}},
 	{"double-spaces", "C05", true, func(r *vrand, in []byte) []byte { return bytes.ReplaceAll(in, []byte(" "), []byte("  ")) }},
 	{"blank-lines", "C05", false, func(r *vrand, in []byte) []byte {
 		return vmapLines(in, func(i int, l string) string {
